@@ -319,8 +319,8 @@ def oracle_kde(case):
 
 
 SUBS = [
-    Sub('bisect', batch_strategy(), oracle_bisect, quick=1200, thorough=60000),
-    Sub('chandrupatla', batch_strategy(), oracle_chandrupatla, quick=1200, thorough=60000),
-    Sub('invalid_bracket', invalid_strategy(), oracle_invalid, quick=600, thorough=20000),
-    Sub('kde_inverse', kde_strategy(), oracle_kde, quick=300, thorough=16000),
+    Sub('bisect', batch_strategy(), oracle_bisect, quick=1200, thorough=60000, use_target=True),
+    Sub('chandrupatla', batch_strategy(), oracle_chandrupatla, quick=1200, thorough=60000, use_target=True),
+    Sub('invalid_bracket', invalid_strategy(), oracle_invalid, quick=600, thorough=20000, use_target=True),
+    Sub('kde_inverse', kde_strategy(), oracle_kde, quick=300, thorough=16000, use_target=True),
 ]
